@@ -412,7 +412,19 @@ func (p *pair) close() {
 // ---------------------------------------------------------------------------------------------
 // Exec
 
+func isPeersCase(c core.Case) bool {
+	for _, op := range c.Ops {
+		if strings.HasPrefix(op, "pnet") || strings.HasPrefix(op, "pburst") {
+			return true
+		}
+	}
+	return c.Kind == "peers"
+}
+
 func execCase(c core.Case) []string {
+	if isPeersCase(c) {
+		return execPeers(c)
+	}
 	if c.Kind == "reactor" || (len(c.Ops) > 0 && strings.HasPrefix(c.Ops[0], "reactor")) {
 		return execReactor(c)
 	}
@@ -489,6 +501,9 @@ func execCase(c core.Case) []string {
 func oracle(c core.Case, out []string) []core.Finding {
 	var fs []core.Finding
 	add := func(fp, d string) { fs = append(fs, core.Finding{Fingerprint: fp, Desc: d}) }
+	if isPeersCase(c) {
+		return oraclePeers(c, out)
+	}
 	if c.Kind == "reactor" || (len(c.Ops) > 0 && strings.HasPrefix(c.Ops[0], "reactor")) {
 		return oracleReactor(c, out)
 	}
@@ -1013,12 +1028,13 @@ func main() {
 			genPair(r, emit, 150*n, false)
 			genPair(r, emit, 10*n, true)
 			genReactor(r, emit, tier)
+			genPeers(r, emit, tier)
 		},
 		Exec:   execCase,
 		Oracle: oracle,
 		NonTrivial: func(c core.Case, out []string) bool {
 			for _, o := range out {
-				if strings.HasPrefix(o, "pkt ") || strings.HasPrefix(o, "recv=") || strings.HasPrefix(o, "err:") || strings.Contains(o, "=a") || strings.HasPrefix(o, "stopped") || strings.HasPrefix(o, "accepted") {
+				if strings.HasPrefix(o, "pkt ") || strings.HasPrefix(o, "recv=") || strings.HasPrefix(o, "err:") || strings.Contains(o, "=a") || strings.HasPrefix(o, "stopped") || strings.HasPrefix(o, "accepted") || strings.HasPrefix(o, "0=p0-m0") {
 					return true
 				}
 			}
